@@ -8,6 +8,20 @@
 // goroutines or hang); it restarts children after a crash/hang and merges the
 // children's step lines, oracle lines and counters into the vh.Out files.
 //
+// Behaviour of the unchanged code worth knowing (none of it violates C39):
+//   - Close/Wait block as long as an outgoing call is unanswered and the transport
+//     stays open. Two Connections whose Writers both fail WITHOUT closing the
+//     transport therefore wait for each other forever; the harness cuts the link
+//     in that situation ("both_write_faults") and otherwise after the soft
+//     deadline ("winddown_forced_sever"); only what still hangs after the link
+//     is cut is reported (close-hang / wait-hang / await-hang).
+//   - The reader goroutine itself writes responses (preempted calls, rejections
+//     while shutting down), so two Connections over an unbuffered transport
+//     (net.Pipe, fakenet over io.Pipe) can deadlock in Write; the harness buffers
+//     at least one direction of such links (pumpWriter).
+//   - A call request whose id is still in use is dropped silently (no response
+//     is written: acceptRequest clears req.ID), so it never counts as answered.
+//
 // Files: main.go (parent/child plumbing), gen.go (scenario generation from
 // (seed, idx)), transport.go (pipes, fault wrapper, wire taps), raw.go (scripted
 // raw peer), run.go (scenario execution + oracle), trace.go (hook trace -> lines).
